@@ -1603,3 +1603,35 @@ def source_local(body, op, pv):
         else:
             return cur
     return cur
+
+
+# ---------------------------------------------------------------------------------------------------------------
+# delegation fidelity of iterator wrappers
+
+ITER_PROTOCOL = {"next", "next_back", "size_hint", "len", "nth", "nth_back", "count", "last"}
+
+
+def iterator_delegations(prog, file_rx):
+    """impls of iterator-protocol methods in the crate whose result IS the result of an iterator-protocol method of an inner
+    iterator (tail delegation): list of dict(body, impl_method, callee_method, line).  A wrapper's `next_back` answering with the
+    inner `next` reverses nothing; `next` answering with `next_back` walks backwards."""
+    out = []
+    for b in prog.production():
+        if b.kind not in ("Fn", "AssocFn") or not re.search(file_rx, b.file or "") or b.name not in ITER_PROTOCOL:
+            continue
+        if not b.impl_trait or not re.search(r"iter::(Iterator|DoubleEndedIterator|ExactSizeIterator)$", b.impl_trait if isinstance(b.impl_trait, str) else str(b.impl_trait)):
+            continue
+        for bi, t in b.calls():
+            if t.dest is not None and t.dest.is_local() and t.dest.local == 0 and t.callee.method in ITER_PROTOCOL and t.callee.trait and re.search(r"iter::(Iterator|DoubleEndedIterator|ExactSizeIterator)$", t.callee.trait):
+                out.append({"body": b, "impl_method": b.name, "callee_method": t.callee.method, "line": t.line})
+    return out
+
+
+def check_iterator_delegations(ck, rule, prog, file_rx, floor=0):
+    ds = iterator_delegations(prog, file_rx)
+    for d in ds:
+        ok = d["impl_method"] == d["callee_method"]
+        ck.ob(rule, "delegate/%s" % d["body"].short, ok, "%s answers with the inner iterator's `%s`%s" % (d["body"].short, d["callee_method"], "" if ok else " (expected `%s`): the wrapper does not implement the protocol method it claims" % d["impl_method"]), where=d["body"].where(d["line"]))
+    if floor:
+        ck.floor(rule, "iterator wrappers delegating the protocol", len(ds), floor)
+    return len(ds)
